@@ -182,9 +182,26 @@ fn check_corpus(name: &str, rec: &mut Rec) -> Result<Value, Fail> {
     if ratio <= 0.5 {
         return Err(Fail::new("corpus-sharing", format!("corpus {}: only {:.3} of the achievable sharing is realised (trie {}, minimal {}, emitted {})", name, ratio, m.trie_nodes, m.states.len(), em)));
     }
+    // the first 3000 keys of the 10 000-key corpora once more, with a single cache row wider than
+    // their node count: no row can have had to evict, so the set must come out exactly minimal -
+    // whatever the cache reports about itself
+    let mut exact = Value::Null;
+    if keys.len() <= 10_000 {
+        let sub: Vec<Vec<u8>> = keys.iter().take(3000).cloned().collect();
+        let ms = mindfa(&sub);
+        let wide = FstInput::new(gen::Front::SetBuilder, Some((1, ms.states.len() + 8)), sub.iter().map(|k| (k.clone(), 0)).collect());
+        let b2 = gen::build(&wide).map_err(|e| Fail::new("build-error", e))?;
+        let d2 = refcodec::decode(&b2.bytes, 0).map_err(|e| Fail::new("format", e))?;
+        let em2 = emitted(&d2);
+        if em2 != ms.states.len() {
+            return Err(Fail::new("not-minimal", format!("the first 3000 keys of corpus {} built with one cache row of {} cells (more than its {} minimal states, so nothing ever had to be evicted) emitted {} nodes; the cache reported {} evictions", name, ms.states.len() + 8, ms.states.len(), em2, b2.evictions)));
+        }
+        rec.class("corpus_exactly_minimal_under_one_wide_row");
+        exact = json!({"keys": sub.len(), "one_row_cells": ms.states.len() + 8, "emitted_nodes": em2, "evictions_reported": b2.evictions});
+    }
     rec.nontrivial(crate::engine::fnv(name.as_bytes()));
     rec.class("corpus_checked");
-    Ok(json!({"corpus": name, "keys": keys.len(), "trie_nodes": m.trie_nodes, "minimal_states": m.states.len(), "emitted_nodes": em, "evictions": built.evictions, "realised_sharing": (ratio * 1000.0).round() / 1000.0}))
+    Ok(json!({"corpus": name, "one_wide_row": exact, "keys": keys.len(), "trie_nodes": m.trie_nodes, "minimal_states": m.states.len(), "emitted_nodes": em, "evictions": built.evictions, "realised_sharing": (ratio * 1000.0).round() / 1000.0}))
 }
 
 /// ~450 distinct 256-way nodes with 8-byte outputs between two occurrences of the same tail.
@@ -326,6 +343,7 @@ pub fn run(e: &Engine) {
     e.require_class("zero_evictions_and_sharing_possible", 1);
     e.require_class("had_evictions", 1);
     e.require_class("corpus_checked", 1);
+    e.require_class("corpus_exactly_minimal_under_one_wide_row", 1);
     // vacuity guard: under the default geometry small inputs must almost never evict
     let dz = e.class_count("default_geometry_zero_evictions");
     let dh = e.class_count("default_geometry_had_evictions");
